@@ -243,24 +243,50 @@ func VH_C18_ListPure() {
 				vAssert(id, !realised())
 			}
 		}
-		switch K {
-		case 0:
-			chk("list-pure:GetDayJiShen", vhSameStrList(a.GetDayJiShen(), b.GetDayJiShen()))
-			chk("list-pure:GetDayXiongSha", vhSameStrList(a.GetDayXiongSha(), b.GetDayXiongSha()))
-		case 1:
-			chk("list-pure:GetDayYi", vhSameStrList(a.GetDayYi(), b.GetDayYi()))
-			chk("list-pure:GetDayJi", vhSameStrList(a.GetDayJi(), b.GetDayJi()))
-			chk("list-route:GetDayYiBySect(1)", vhSameStrList(a.GetDayYi(), a.GetDayYiBySect(1)))
-			chk("list-route:GetDayJiBySect(1)", vhSameStrList(a.GetDayJi(), a.GetDayJiBySect(1)))
-		case 2:
-			chk("list-pure:GetDayYiBySect(2)", vhSameStrList(a.GetDayYiBySect(2), b.GetDayYiBySect(2)))
-			chk("list-pure:GetDayJiBySect(2)", vhSameStrList(a.GetDayJiBySect(2), b.GetDayJiBySect(2)))
-		default:
-			chk("list-pure:GetTimeYi", vhSameStrList(a.GetTimeYi(), b.GetTimeYi()))
-			chk("list-pure:GetTimeJi", vhSameStrList(a.GetTimeJi(), b.GetTimeJi()))
-			t := &LunarTime{lunar: a, zhiIndex: a.timeZhiIndex, ganIndex: a.timeGanIndex}
-			chk("list-route:LunarTime.GetYi", vhSameStrList(t.GetYi(), a.GetTimeYi()))
-			chk("list-route:LunarTime.GetJi", vhSameStrList(t.GetJi(), a.GetTimeJi()))
+		// the lists of this menu entry, computed under a panic guard; each must be a well-formed list (C08)
+		var la, lb [4]*list.List
+		var names [4]string
+		pan := vPanics(func() {
+			switch K {
+			case 0:
+				names = [4]string{"GetDayJiShen", "GetDayXiongSha"}
+				la[0], lb[0] = a.GetDayJiShen(), b.GetDayJiShen()
+				la[1], lb[1] = a.GetDayXiongSha(), b.GetDayXiongSha()
+			case 1:
+				names = [4]string{"GetDayYi", "GetDayJi", "route:GetDayYiBySect(1)", "route:GetDayJiBySect(1)"}
+				la[0], lb[0] = a.GetDayYi(), b.GetDayYi()
+				la[1], lb[1] = a.GetDayJi(), b.GetDayJi()
+				la[2], lb[2] = a.GetDayYi(), a.GetDayYiBySect(1)
+				la[3], lb[3] = a.GetDayJi(), a.GetDayJiBySect(1)
+			case 2:
+				names = [4]string{"GetDayYiBySect(2)", "GetDayJiBySect(2)"}
+				la[0], lb[0] = a.GetDayYiBySect(2), b.GetDayYiBySect(2)
+				la[1], lb[1] = a.GetDayJiBySect(2), b.GetDayJiBySect(2)
+			default:
+				names = [4]string{"GetTimeYi", "GetTimeJi", "route:LunarTime.GetYi", "route:LunarTime.GetJi"}
+				t := &LunarTime{lunar: a, zhiIndex: a.timeZhiIndex, ganIndex: a.timeGanIndex}
+				la[0], lb[0] = a.GetTimeYi(), b.GetTimeYi()
+				la[1], lb[1] = a.GetTimeJi(), b.GetTimeJi()
+				la[2], lb[2] = t.GetYi(), a.GetTimeYi()
+				la[3], lb[3] = t.GetJi(), a.GetTimeJi()
+			}
+		})
+		if pan {
+			vAssert("list:no-panic", !realised())
+			continue
+		}
+		for k := 0; k < 4; k++ {
+			if names[k] == "" {
+				continue
+			}
+			if !(vhListOK(la[k]) && vhListOK(lb[k])) {
+				vAssert("list-well-formed:"+names[k], !realised())
+			}
+			id := "list-pure:" + names[k]
+			if len(names[k]) > 6 && names[k][:6] == "route:" {
+				id = "list-" + names[k]
+			}
+			chk(id, vhSameStrList(la[k], lb[k]))
 		}
 	}
 	vAssert("list-pure:walked", true)
